@@ -100,18 +100,20 @@ def bodyOf (cfg : Cfg) (req : Req) : Except Exc (Bytes × Option St) :=
 /-- `_body_read` switches to a temporary file once more than `buff_size` bytes were written -/
 def spooled (cfg : Cfg) (body : Bytes) : Bool := body.length > cfg.maxMemfile
 
+/-- how many bytes `_get_body_string` asks for: `content_length`, or `max + 1` when it is negative -/
+def bodyStringLen (cfg : Cfg) (cl : Int) : Nat :=
+  (if cl < 0 then (cfg.maxMemfile : Int) + 1 else cl).toNat
+
 /-- `_get_body_string` -/
 def getBodyString (cfg : Cfg) (req : Req) : Except Exc Bytes :=
   match bodyOf cfg req with                       -- `self._body.seek(0)`
   | .error e => .error e
   | .ok (body, _) =>
-    let mx : Int := cfg.maxMemfile
-    if req.contentLength > mx then .error (raiseErr cfg.errorsMap .bodySizeError (some .requestError))
-    else
-      let n : Int := if req.contentLength < 0 then mx + 1 else req.contentLength
-      let data := body.take n.toNat
-      if (data.length : Int) > mx then .error (raiseErr cfg.errorsMap .bodySizeError (some .requestError))
-      else .ok data
+    if req.contentLength > (cfg.maxMemfile : Int) then
+      .error (raiseErr cfg.errorsMap .bodySizeError (some .requestError))
+    else if (body.take (bodyStringLen cfg req.contentLength)).length > cfg.maxMemfile then
+      .error (raiseErr cfg.errorsMap .bodySizeError (some .requestError))
+    else .ok (body.take (bodyStringLen cfg req.contentLength))
 
 /-! ### `json` -/
 
@@ -241,6 +243,21 @@ def runPost (cfg : Cfg) (jl : JLoads) (req : Req) (c : Cache) : Cache × Except 
   | .ok d => ({ c' with post := some d }, .ok d)
   | .error e => (c', .error e)
 
+/-- `self.POST` inside `forms` / `files`: the cached mapping, or a run of the getter -/
+def ensurePost (cfg : Cfg) (jl : JLoads) (req : Req) (c : Cache) : Cache × Except Exc Dict :=
+  match c.post with
+  | some d => (c, .ok d)
+  | none => runPost cfg jl req c
+
+/-- `return self.environ['ombott.request.forms']` (resp. `files`) after `self.POST` -/
+def readKey (p : Cache × Except Exc Dict) (get : Cache → Option Dict) : Cache × Except Exc Val :=
+  match p.2 with
+  | .error e => (p.1, .error e)
+  | .ok _ =>
+    match get p.1 with
+    | some d => (p.1, .ok (.dict d))
+    | none => (p.1, .error (.py .keyError))
+
 def access (cfg : Cfg) (jl : JLoads) (req : Req) (c : Cache) : Accessor → Cache × Except Exc Val
   | .body =>
     match bodyOf cfg req with
@@ -256,42 +273,20 @@ def access (cfg : Cfg) (jl : JLoads) (req : Req) (c : Cache) : Accessor → Cach
   | .post =>
     match c.post with
     | some d => (c, .ok (.dict d))
-    | none =>
-      let (c', r) := runPost cfg jl req c
-      (c', r.map Val.dict)
+    | none => ((runPost cfg jl req c).1, (runPost cfg jl req c).2.map Val.dict)
   | .forms =>
     match c.forms with
     | some d => (c, .ok (.dict d))
-    | none =>
-      let (c', r) := match c.post with
-        | some d => (c, Except.ok d)
-        | none => runPost cfg jl req c
-      match r with
-      | .error e => (c', .error e)
-      | .ok _ =>
-        match c'.forms with
-        | some d => (c', .ok (.dict d))
-        | none => (c', .error (.py .keyError))
+    | none => readKey (ensurePost cfg jl req c) (·.forms)
   | .files =>
     match c.files with
     | some d => (c, .ok (.dict d))
-    | none =>
-      let (c', r) := match c.post with
-        | some d => (c, Except.ok d)
-        | none => runPost cfg jl req c
-      match r with
-      | .error e => (c', .error e)
-      | .ok _ =>
-        match c'.files with
-        | some d => (c', .ok (.dict d))
-        | none => (c', .error (.py .keyError))
+    | none => readKey (ensurePost cfg jl req c) (·.files)
 
 /-- a handler that reads the accessors in this order, catching what each raises -/
 def accessSeq (cfg : Cfg) (jl : JLoads) (req : Req) : Cache → List Accessor → List (Except Exc Val)
   | _, [] => []
-  | c, a :: as =>
-    let (c', r) := access cfg jl req c a
-    r :: accessSeq cfg jl req c' as
+  | c, a :: as => (access cfg jl req c a).2 :: accessSeq cfg jl req (access cfg jl req c a).1 as
 
 /-- the status `Ombott._handle` answers with when the handler lets the outcome of an access
 through: a framework response keeps its status, any other exception is the catch-all 500 (with a
